@@ -18,5 +18,6 @@ func controlsC16() []Control {
 		{Name: "AssignSeats asks IsPlayerActive under its own write lock", Expect: "R4", Mutate: replaceIn("(*seatManager).AssignSeats", "emptySeatIDs := sm.getEmptySeatIDs()", "sm.IsPlayerActive(\"x\")\n\temptySeatIDs := sm.getEmptySeatIDs()", 0)},
 		{Name: "auto sit-in completion reads the player list without the lock", Expect: "R6", Mutate: replaceIn("(*tableEngine).notInPlayerIDs", "\tte.lock.Lock()\n\tdefer te.lock.Unlock()\n", "", 0)},
 		{Name: "auto sit-in completion indexes the live list itself", Expect: "R6", Mutate: replaceIn("(*tableEngine).playersAutoIn", "isInCount, alivePlayers := te.countInAndAlivePlayers()", "isInCount, alivePlayers := te.countInAndAlivePlayers()\n\t\tfor i := 0; i < isInCount; i++ {\n\t\t\tif te.table.State.PlayerStates[i].Bankroll < 0 {\n\t\t\t\talivePlayers--\n\t\t\t}\n\t\t}", 0)},
+		{Name: "auto sit-in re-uses the stopped ready group", Expect: "R7", Mutate: replaceIn("(*tableEngine).playersAutoIn", "\tte.rg = syncsaga.NewReadyGroup()\n", "", 0)},
 	}
 }
